@@ -64,13 +64,14 @@ def impl(case):
             r = T.get_ephys_reader(paths, sample_rate=sr, dtype=np.int16, n_channels=case['nch'],
                                    offset=case.get('offset', 0))
             it = [[int(a), int(b)] for a, b in r.iter_chunks()]
+            it2 = [[int(a), int(b)] for a, b in r.iter_chunks()]
             # read_by_chunks_eq_concat: reader[i0:i1] over the iterator, stacked = the recording
             whole = np.concatenate(blocks, axis=0)
             got = [np.asarray(r[a:b]) for a, b in it if b > a]
             got = np.concatenate(got, axis=0) if got else whole[:0]
             out = dict(bounds=[int(x) for x in r.chunk_bounds],
                        part_bounds=[int(x) for x in r.part_bounds],
-                       iter=it, n_samples=int(r.n_samples),
+                       iter=it, iter_second_pass_same=bool(it2 == it), n_samples=int(r.n_samples),
                        concat_ok=bool(got.shape == whole.shape and np.array_equal(got, whole)))
             del r
         return out
@@ -97,6 +98,15 @@ def impl(case):
             out = dict(bounds=[int(x) for x in r.chunk_bounds],
                        iter=[[int(a), int(b)] for a, b in r.iter_chunks(cache=case['cache'])],
                        n_samples=int(r.n_samples), bs=int(rd.batch_size))
+            # further complete passes over the SAME reader (cache on/off in any sequence): every pass tiles the
+            # recording like the first
+            again = []
+            for cache in case.get('again', []):
+                try:
+                    again.append([[int(a), int(b)] for a, b in r.iter_chunks(cache=cache)])
+                except Exception as e:  # noqa
+                    again.append('%s: %s' % (type(e).__name__, str(e)[:100]))
+            out['again'] = again
             rd.close()
         return out
     raise ValueError(op)
@@ -178,6 +188,8 @@ def judge(case, impl_res, ans):
             return 'SPEC: iter_chunks intervals do not reach the sample count'
         if ok.get('concat_ok') is False:
             return 'SPEC: reader[i0:i1] over iter_chunks, stacked, differs from the recording'
+        if ok.get('iter_second_pass_same') is False:
+            return 'SPEC: a second pass of iter_chunks over the same reader differs from the first'
         if ok['bounds'] != m['model'] or ok['iter'] != m['iter'] or \
                 (op == 'reader_flat' and ok['part_bounds'] != m['part_bounds']):
             return 'CORR: reader bounds/iterator differ from the model'
@@ -188,6 +200,10 @@ def judge(case, impl_res, ans):
             return 'SPEC: compressed reader chunk bounds do not increase strictly from 0 to n'
         if ok['iter'] != m['model']:
             return 'CORR: compressed iter_chunks differs from the model'
+        for k, it in enumerate(ok.get('again', [])):
+            if it != ok['iter']:
+                return ('SPEC: pass %d over the same compressed reader (cache=%s after %s) does not tile the recording '
+                        'like the first pass: %s' % (k + 2, case['again'][k], [case['cache']] + case['again'][:k], str(it)[:120]))
         return None
     if ok != m['model']:
         return 'CORR: output differs from the model (predicate holds on this input)'
@@ -207,6 +223,8 @@ def nontrivial(case):
 
 def tally(rep, case, impl_res, ans):
     rep.count('op:' + case['op'])
+    if case['op'] == 'reader_cbin':
+        rep.count('passes_over_one_compressed_reader:%s' % ([case['cache']] + case.get('again', [])))
     if 'ok' in impl_res and case['op'] in ('chunk_bounds',):
         rep.count('chunks:%s' % min(len(impl_res['ok']), 6))
     if case['op'] == 'reader_flat':
@@ -315,7 +333,8 @@ def gen(tier, rng):
         for cd in ((0.5, 1.0) if q else (0.25, 0.5, 1.0, 2.5)):
             for bs in (1, 2, 3):
                 for cache in (False, True):
-                    yield dict(p=PID, op='reader_cbin', n=n, sr=10.0, cd=cd, bs=bs, cache=cache)
+                    yield dict(p=PID, op='reader_cbin', n=n, sr=10.0, cd=cd, bs=bs, cache=cache,
+                               again=[[], [True], [False, True], [True, True]][(n + bs + int(cache)) % 4])
     # 5. random larger cases
     R = 3000 if q else 60000
     for _ in range(R):
